@@ -47,9 +47,16 @@ def main():
     n = int(sys.argv[2]) if len(sys.argv) > 2 else 6
     jobs = seeds() if mode == 'seeds' else refactorings()
     bad = 0
+    last = open('/verif/tools/scratchall.%s.last' % mode, 'w')
     with ThreadPoolExecutor(max_workers=n) as ex:
         for (name, patch, props), out in zip(jobs, ex.map(lambda j: run(j[1], j[2]), jobs)):
             tiers = re.findall(r'^(C\d\d) tier=\S+ .*violations=(\d+)', out, re.M)
+            first = next((l.strip() for l in out.splitlines() if '[violated]' in l), '') or next((l.strip() for l in out.splitlines() if '[undecided]' in l), '')
+            if mode == 'seeds':
+                last.write('%s\t%s\n' % (name, first[:300] if first else 'NOT REPORTED'))
+            else:
+                last.write('%s\t%s\n' % (name, ('ALARM: ' + first[:260]) if any(v != '0' for _, v in tiers) else ('silent against ' + ' '.join(c for c, _ in tiers)) if len(tiers) == len(props) else 'INCOMPLETE'))
+            last.flush()
             if mode == 'seeds':
                 caught = '[violated]' in out
                 if not caught:
